@@ -178,6 +178,22 @@ def szCmd (l : Limits) (ctor : String) (a : List Int) : Option SzR :=
     some (andThen (str x) fun p => andThen (repeatString 2 y l.maxString) fun q =>
       andThen (stringJoin p q l.maxString) fun _ => andThen (str r) fun rl =>
         replaceFamily p (q / 2) rl l.maxString.toNat)
+  -- copies and parts of operands (mirrors harness/mudlib/c04/sizes.c)
+  | "copy_array", [n] => some (andThen (allocateArray n l.maxArray) sameSize)
+  | "copy_mapping", [n] => some (andThen (mapInsertMany 0 n.toNat l.maxMapping) sameSize)
+  | "sort_array", [n] => some (andThen (allocateArray n l.maxArray) sameSize)
+  | "map_array", [n] => some (andThen (allocateArray n l.maxArray) sameSize)
+  | "lower_case", [n] => some (andThen (str n) sameSize)
+  | "filter_array", [n, kept] => some (andThen (allocateArray n l.maxArray) fun a => partOf a kept.toNat)
+  | "unique_array", [n, groups] =>
+    some (andThen (allocateArray n l.maxArray) fun a => partOf a (if groups ≤ 0 then a else groups.toNat))
+  | "array_sub", [n, k] =>
+    some (andThen (allocateArray n l.maxArray) fun a => andThen (allocateArray k l.maxArray) fun b => partOf a (a - b))
+  | "array_and", [n, k] =>
+    some (andThen (allocateArray n l.maxArray) fun a => andThen (allocateArray k l.maxArray) fun b => partOf a b)
+  | "keys", [n] => some (andThen (mapInsertMany 0 n.toNat l.maxMapping) fun c => mapKeys c l.maxArray)
+  | "values", [n] => some (andThen (mapInsertMany 0 n.toNat l.maxMapping) fun c => mapKeys c l.maxArray)
+  | "allocate_mapping", [n] => some (allocateMapping n)
   | "sprintf", [x, y] =>
     some (andThen (str x) fun p => andThen (str y) fun q => andThen (sprintfAdd 0 p) fun real => andThen (sprintfAdd real q) fun r => sprintfFinish r l.maxString)
   | _, _ => none
